@@ -26,6 +26,7 @@ type c03Slot struct {
 }
 
 type c03Case struct {
+	Mode          int // 0 no finalize hook; 1 finalize hook, parent alive; 2 finalize hook, parent being deleted (finalizing)
 	ClusterParent bool
 	Declared      []string
 	GenSel        bool
@@ -65,9 +66,12 @@ func c03Run(c c03Case) []mc.Finding {
 	for _, r := range c.Declared {
 		declared = append(declared, kindByResource(r))
 	}
-	w := newCWorld(ccOpt{parent: pk, children: declared, generateSel: c.GenSel}, false)
+	w := newCWorld(ccOpt{parent: pk, children: declared, generateSel: c.GenSel, finalize: c.Mode > 0}, false)
 	parent := kit.Obj(pk, pns, "p")
 	kit.Field(parent, "puid", "metadata", "uid")
+	if c.Mode == 2 {
+		kit.Deleting(kit.Finalizers(parent, "metacontroller.io/compositecontroller-cc"))
+	}
 	if !c.GenSel {
 		kit.Field(parent, kit.M{"matchLabels": kit.M{"app": "x"}}, "spec", "selector")
 	}
@@ -119,8 +123,10 @@ func c03Run(c c03Case) []mc.Finding {
 		inScope := c.ClusterParent || (k.Namespaced && ns == pns)
 		visible := false
 		switch s.Role {
-		case "owned", "owned+extra-owner", "owned-deleting", "orphan-match":
+		case "owned", "owned+extra-owner", "owned-deleting":
 			visible = true
+		case "orphan-match":
+			visible = c.Mode != 2 // a parent that is being deleted neither adopts nor releases
 		}
 		if isDeclared && inScope && visible {
 			inner := name
@@ -134,7 +140,7 @@ func c03Run(c c03Case) []mc.Finding {
 	w.DeliverAll()
 	// the hook returns one new child without a namespace (with one for cluster parents + namespaced kinds)
 	zk := declared[0]
-	w.Hooks.Handle("/cc/sync", world.JSON(func(req map[string]interface{}) interface{} {
+	answer := world.JSON(func(req map[string]interface{}) interface{} {
 		z := kit.Obj(zk, "", "z")
 		if c.ClusterParent && zk.Namespaced {
 			z = kit.Obj(zk, "n2", "z")
@@ -143,7 +149,9 @@ func c03Run(c c03Case) []mc.Finding {
 			kit.Labels(z, "app", "x")
 		}
 		return kit.M{"status": kit.M{}, "children": kit.L{z}}
-	}))
+	})
+	w.Hooks.Handle("/cc/sync", answer)
+	w.Hooks.Handle("/cc/finalize", answer)
 	cachedJSON := map[string]string{}
 	for _, k := range declared {
 		if inf := w.Informer(k); inf != nil {
@@ -169,6 +177,9 @@ func c03Run(c c03Case) []mc.Finding {
 	if len(w.Hooks.Calls) != 1 {
 		bad("hook-calls", "%d hook calls", len(w.Hooks.Calls))
 		return f
+	}
+	if wantFin := c.Mode == 2; (w.Hooks.Calls[0].Path == "/cc/finalize") != wantFin || (kit.Get(w.Hooks.Calls[0].Parsed, "finalizing") == true) != wantFin {
+		bad("hook-kind", "hook %s finalizing=%v, want finalize=%v", w.Hooks.Calls[0].Path, kit.Get(w.Hooks.Calls[0].Parsed, "finalizing"), wantFin)
 	}
 	req := w.Hooks.Calls[0].Parsed
 	children, ok := req["children"].(kit.M)
@@ -270,15 +281,15 @@ func TestVerifC03(t *testing.T) {
 	for ci, cf := range cfgs {
 		kinds := append(append([]string{}, cf.declared...), "others")
 		perSlot := len(c03Roles) * 2 * len(kinds)
-		dims := []int{2}
+		dims := []int{3, 2}
 		for i := 0; i < nslots; i++ {
 			dims = append(dims, perSlot)
 		}
 		mc.Product(r, dims, func(idx int, d []int) {
-			c := c03Case{ClusterParent: cf.cluster, Declared: cf.declared, GenSel: d[0] == 1}
+			c := c03Case{Mode: d[0], ClusterParent: cf.cluster, Declared: cf.declared, GenSel: d[1] == 1}
 			nontrivial := 0
 			for i := 0; i < nslots; i++ {
-				x := d[1+i]
+				x := d[2+i]
 				s := c03Slot{Role: c03Roles[x%len(c03Roles)], NS: []string{"n1", "n2"}[(x/len(c03Roles))%2], Kind: kinds[x/(len(c03Roles)*2)]}
 				if s.Role != "absent" {
 					nontrivial++
